@@ -5,7 +5,8 @@
 From Coq Require Import ZArith List Bool String Ascii.
 From Cspuz Require Import Lib.PyErr Core.Expr Core.Program Backend.SugarText Backend.SugarTextProofs
   Gen.SugarOps Backend.Sugar Backend.SugarReply Backend.SugarLexProofs Backend.SugarSpec
-  Backend.SugarPrintProofs Backend.SugarDescProofs Backend.SugarReplyProofs Backend.SugarMain Backend.SugarThrough.
+  Backend.SugarPrintProofs Backend.SugarDescProofs Backend.SugarReplyProofs Backend.SugarMain Backend.SugarThrough
+  Backend.SugarHistory Backend.SugarHistoryProofs.
 Import ListNotations.
 Open Scope string_scope.
 
@@ -151,3 +152,37 @@ Theorem solve_through_text : forall gsem solver st,
                                   forall en, model_of gsem en st -> name_env en (var_name v) = Some x)).
 Proof. exact SugarThrough.solve_through_text. Qed.
 Print Assumptions solve_through_text.
+
+(* call histories on one backend object (Backend/SugarHistory.v): posting in any
+   number of add_constraint calls, each with a list or a single tree, gives the
+   description of the concatenation -- text and error points alike *)
+Theorem history_description_eq : forall k vs ps mode,
+  history_description k vs ps mode = description_k k vs (posted ps) mode.
+Proof. exact SugarHistoryProofs.history_description_eq. Qed.
+Print Assumptions history_description_eq.
+
+(* so every description of a history declares exactly the variables, names exactly
+   the keys of that call and denotes exactly everything posted so far *)
+Theorem history_description_faithful : forall gsem k vs ps mode text,
+  (native_deduction k = true \/ mode = None) ->
+  Forall (fun c => wts true c = true) (posted ps) ->
+  history_description k vs ps mode = Ok text ->
+  exists jp, java_load text = Some jp /\
+    sugar_decls (j_problem jp) = map (fun v => Some (sdecl_of v)) vs /\
+    j_keys jp = option_map (fun ks => key_list (names_of_keys vs ks)) mode /\
+    forall en, map (sugar_sem gsem (name_env en)) (sugar_constraints (j_problem jp)) =
+               map (eval gsem en) (posted ps).
+Proof. exact SugarHistoryProofs.history_description_faithful. Qed.
+Print Assumptions history_description_faithful.
+
+(* the refinement loop of Solver.solve on the plain `sugar` backend: the description
+   of every round carries Solver.constraints and every clause posted so far *)
+Theorem loop_description_faithful : forall gsem vs cs clauses text,
+  Forall (fun c => wts true c = true) (cs ++ clauses)%list ->
+  loop_description vs cs clauses = Ok text ->
+  exists jp, java_load text = Some jp /\
+    sugar_decls (j_problem jp) = map (fun v => Some (sdecl_of v)) vs /\ j_keys jp = None /\
+    forall en, map (sugar_sem gsem (name_env en)) (sugar_constraints (j_problem jp)) =
+               map (eval gsem en) (cs ++ clauses)%list.
+Proof. exact SugarHistoryProofs.loop_description_faithful. Qed.
+Print Assumptions loop_description_faithful.
